@@ -70,7 +70,7 @@ Fixpoint all_chars (p : ascii -> bool) (s : string) : bool :=
 (* the alphabet of repr(float): digits, sign, point, exponent, "inf", "nan" *)
 Definition float_char (a : ascii) : bool := has_char a "0123456789+-.einfa".
 (* a float is carried as repr text.  NaN is excluded: it is not equal to itself, so it cannot be a cache key; the repaired
-   param-class constructor refuses it (repair C09-6), as `validate` does here.  Negative zero compares equal to 0.0
+   generator.run refuses a call holding it before anything else (repair C09-6), as `validate` does here.  Negative zero compares equal to 0.0
    but prints differently: a validated instance may hold either (float_held), the cache key is the repr of 0.0 for both
    (fzero: -0.0 == 0.0 and hash(-0.0) == hash(0.0); the repaired params.py:_named_value names both as 0.0), so that
    cache-key floats (float_ok) are never "-0.0" *)
